@@ -29,6 +29,35 @@ def _with_exit_offsets(code):
     return frozenset(out)
 
 
+def sut_code_objects(modules):
+    """every code object defined in the given modules (functions, methods, nested functions, lambdas)"""
+    import types
+    seen, out = set(), []
+
+    def walk(code):
+        if code in seen:
+            return
+        seen.add(code)
+        out.append(code)
+        for c in code.co_consts:
+            if isinstance(c, types.CodeType):
+                walk(c)
+    for m in modules:
+        for v in list(vars(m).values()):
+            if isinstance(v, types.FunctionType) and v.__module__ == m.__name__:
+                walk(v.__code__)
+            elif isinstance(v, type) and v.__module__ == m.__name__:
+                for a in list(vars(v).values()):
+                    f = a.__func__ if isinstance(a, (staticmethod, classmethod)) else a
+                    f = getattr(f, 'fget', f) if isinstance(f, property) else f
+                    if isinstance(f, types.FunctionType):
+                        walk(f.__code__)
+    return out
+
+
+MON_TOOL = 3
+
+
 ACTIVE = [None]       # the scheduler currently running simulated threads in this process
 
 
@@ -285,7 +314,11 @@ class _ThreadTracer(object):
 
 class Sched(object):
     def __init__(self, nthreads, decider, log, is_sut_file, max_steps=2000000,
-                 faults=None, stalls=None, opcode_salt=None, opcode_mod=3):
+                 faults=None, stalls=None, opcode_salt=None, opcode_mod=3, instruction_codes=None):
+        # instruction_codes: list of SUT code objects -> pre-emption at every bytecode instruction
+        # (sys.monitoring INSTRUCTION events, instrumented once before the threads start) instead of
+        # at line events (sys.settrace).  No exception faults in that mode.
+        self.instruction_codes = instruction_codes
         self.n = nthreads
         self.decider = decider
         self.log = log
@@ -351,7 +384,7 @@ class Sched(object):
                 self._deferred[tid] = f
                 f = None
             if f is not None:
-                where = '%s:%d' % (os.path.basename(frame.f_code.co_filename), frame.f_lineno)
+                where = '%s:%d' % (os.path.basename(frame.f_code.co_filename), frame.f_lineno or 0)
                 self.fired.append((f, self.curop[tid], ol, where))
                 self.log.add('fault', f, tid, self.curop[tid], ol, where)
                 if f == 'cancel':
@@ -376,7 +409,7 @@ class Sched(object):
             self._switch(tid, tgt, frame)
 
     def _fire(self, f, tid, ol, frame):
-        where = '%s:%d' % (os.path.basename(frame.f_code.co_filename), frame.f_lineno)
+        where = '%s:%d' % (os.path.basename(frame.f_code.co_filename), frame.f_lineno or 0)
         self.fired.append((f, self.curop[tid], ol, where))
         self.log.add('fault', f, tid, self.curop[tid], ol, where)
         if f == 'cancel':
@@ -408,7 +441,7 @@ class Sched(object):
         self._switch(tid, tgt, frame)
 
     def _switch(self, tid, tgt, frame):
-        site = (os.path.basename(frame.f_code.co_filename), frame.f_lineno)
+        site = (os.path.basename(frame.f_code.co_filename), frame.f_lineno or 0)
         self.sites.add(site)
         self.nswitch += 1
         self.log.add('sw', tid, tgt, site[0], site[1])
@@ -423,11 +456,38 @@ class Sched(object):
         self.curop[tid] = op_id
         self.opline[tid] = 0
         self._deferred[tid] = None
-        sys.settrace(self.tracers[tid].gtrace)   # (re-)arm: an injected exception unsets it
+        if self.instruction_codes is None:
+            sys.settrace(self.tracers[tid].gtrace)   # (re-)arm: an injected exception unsets it
 
     def end_op(self, tid):
-        sys.settrace(None)
+        if self.instruction_codes is None:
+            sys.settrace(None)
         self.curop[tid] = None
+
+    def _instr_cb(self, code, offset):
+        name = threading.current_thread().name
+        if not name.startswith('sim-'):
+            return
+        tid = int(name[4:])
+        if self.curop[tid] is None or tid != self.current:
+            return
+        self._yield(tid, sys._getframe(1))
+
+    def _arm_instruction_mode(self):
+        mon = sys.monitoring
+        try:
+            mon.use_tool_id(MON_TOOL, 'detsim')
+        except ValueError:
+            pass
+        for c in self.instruction_codes:
+            mon.set_local_events(MON_TOOL, c, mon.events.INSTRUCTION)
+        mon.register_callback(MON_TOOL, mon.events.INSTRUCTION, self._instr_cb)
+
+    def _disarm_instruction_mode(self):
+        mon = sys.monitoring
+        mon.register_callback(MON_TOOL, mon.events.INSTRUCTION, None)
+        for c in self.instruction_codes:
+            mon.set_local_events(MON_TOOL, c, 0)
 
     # -- run --------------------------------------------------------------
     def _thread_main(self, tid, body):
@@ -457,12 +517,16 @@ class Sched(object):
         for th in threads:
             th.start()
         ACTIVE[0] = self
+        if self.instruction_codes is not None:
+            self._arm_instruction_mode()
         first = self.decider.start(list(range(self.n)))
         self.log.add('start', first)
         self.current = first
         self.sems[first].release()
         finished = self.all_done.wait(wall_timeout)
         ACTIVE[0] = None
+        if self.instruction_codes is not None and finished:
+            self._disarm_instruction_mode()
         if not finished:
             raise RuntimeError('simulated threads did not finish within %ss (harness hang)' % wall_timeout)
         for th in threads:
